@@ -158,7 +158,7 @@ class C06(Check):
 
     def ref_ops(self, entry):
         out = [{'api': 'iter_errors'}, {'api': 'to_json'}, {'api': 'to_json_strict'}, {'api': 'to_json_skip'},
-               {'api': 'valid_twice'}]
+               {'api': 'valid_twice'}, {'api': 'to_json_fp'}]
         for p in entry.family.paths:
             out.append({'api': 'iter_decode_path', 'path': p})
         out.append({'api': 'res_all'})
@@ -206,6 +206,13 @@ class C06(Check):
                 if isinstance(r, tuple):
                     return {'k': 'ok', 'v': [json.loads(r[0]), ops.errors_canon(r[1], lazy)]}
                 return {'k': 'ok', 'v': [json.loads(r), []]}
+            if api == 'to_json_fp':
+                # the lazy JSON encoder meets the chunk errors only while json.dump() writes: the returned error
+                # list must hold them too
+                import io
+                fp = io.StringIO()
+                r = xmlschema.to_json(source, fp=fp, schema=schema, validation='lax')
+                return {'k': 'ok', 'v': [json.loads(fp.getvalue()), ops.errors_canon(list(r or ()), lazy)]}
             if api in ('to_json_strict', 'to_json_skip'):
                 r = xmlschema.to_json(source, schema=schema, validation=api.rsplit('_', 1)[1])
                 if isinstance(r, tuple):
@@ -256,7 +263,7 @@ class C06(Check):
         data = e.docs[di].data
         depth = 1 if focus or pfocus else rng.choice([1, 1, 1, 1, 2, 3])
         apis = ['iter_errors', 'iter_errors', 'is_valid', 'to_json', 'to_json', 'to_json_strict', 'to_json_skip',
-                'res_depth', 'res_iter', 'res_ns', 'res_loc', 'valid_twice']
+                'res_depth', 'res_iter', 'res_ns', 'res_loc', 'valid_twice', 'to_json_fp']
         if e.family.paths:
             apis += ['iter_decode_path', 'res_find']
         api = rng.choice(['iter_errors', 'is_valid']) if focus else rng.choice(apis)
@@ -373,6 +380,9 @@ class C06(Check):
     def judge(self, op, src, got, ref, incremental):
         api = op['api']
         base = {'api': api}
+        if api == 'to_json_fp':
+            # the same lazy decoder as to_json (so the listed lazy-decode findings are recognised), written to a file
+            base = {'api': 'to_json', 'fp': True}
         nonseek = src.get('seekable', True) is False
         def reason(r):
             return canon.template((r.get('verr') or [None, r.get('msg', '')])[1])
@@ -414,7 +424,7 @@ class C06(Check):
                 base.update(d)
                 return base
             return None
-        if api in ('to_json', 'iter_decode_path', 'to_json_strict', 'to_json_skip'):
+        if api in ('to_json', 'iter_decode_path', 'to_json_strict', 'to_json_skip', 'to_json_fp'):
             d = compare_errors(g[1], r[1])
             if g[0] != r[0]:
                 base.update(clause='data', diff=data_diff(g[0], r[0]))
